@@ -236,6 +236,18 @@ def torch_runs(run, tier, rng, root, traces, computer=None, seed=5, combos=None,
             open(p, "wb").write(sph_util.pcm_file(x))
         spec.append((uid, p, cont, x))
         lines.append("%s %s" % (uid, p))
+    # several utterances in one archive, selected by utterance id (the tool passes the id as read_signal's key)
+    import h5py
+    multi = []
+    for k, n in ((8, 950), (9, 700), (10, 1200), (11, 640)):
+        multi.append(("t%02d" % k, nprng.randint(-3000, 3000, size=n).astype(np.int16)))
+    p_npz, p_h5 = os.path.join(d, "raw", "multi.npz"), os.path.join(d, "raw", "multi.hdf5")
+    np.savez(p_npz, **{u: x.astype(np.float32) for u, x in multi[:2]})
+    with h5py.File(p_h5, "w") as f:
+        for u, x in multi[2:]:
+            f.create_dataset(u, data=x.astype(np.float32))
+    for j, (u, x) in enumerate(multi):
+        spec.append((u, p_npz if j < 2 else p_h5, "multi", x))
     if combos is None:
         combos = [(p, q, s) for p in range(3) for q in range(3) for s in ("inline", "json", "yaml")]
         if tier == "quick":
@@ -289,7 +301,7 @@ def torch_runs(run, tier, rng, root, traces, computer=None, seed=5, combos=None,
             pres = [alias.alias_factory_subclass_from_arg(pre.PreProcessor, c) for c in pre_cfg]
             posts = [alias.alias_factory_subclass_from_arg(post.PostProcessor, c) for c in post_cfg]
             for idx, (uid, p, cont, x) in enumerate(chosen):
-                sig = util.read_signal(p, dtype=np.float64)
+                sig = util.read_signal(p, dtype=np.float64) if cont != "multi" else x.astype(np.float64)  # (its own entry of the archive)
                 if sig.ndim != 1:
                     sig = sig[channel]
                 for q in pres:
@@ -311,6 +323,28 @@ def torch_runs(run, tier, rng, root, traces, computer=None, seed=5, combos=None,
                     run.violation({"kind": "torch_stored_features_differ_from_library_pipeline", "utt": uid, "container": cont, "pre": pre_cfg,
                                    "post": post_cfg, "syntax": syntax, "channel": channel, "computer": with_comp,
                                    "stored_shape": list(g.shape), "library_shape": list(f.shape)})
+            # a resumed run (the manifest already lists the first two utterances) stores, for the others, what the
+            # complete run stored: a fixed --seed fixes the output of every run
+            if pi == 2 and channel == -1 and with_comp and len(chosen) > 3:
+                out = os.path.join(d, "out_%d_%d_%s_resumed" % (pi, qi, syntax))
+                man = out + ".manifest"
+                with open(man, "w") as f:
+                    f.write("".join("%s\n" % s_[0] for s_ in chosen[:2]))
+                args = [mp, config_arg(COMPUTER, syntax, d, "comp"), out, "--seed=%d" % seed, "--num-workers=0", "--manifest=" + man,
+                        "--preprocess=" + config_arg(pre_cfg, syntax, d, "pre")]
+                if post_cfg:
+                    args.append("--postprocess=" + config_arg(post_cfg, syntax, d, "post"))
+                pid, st = run_forked(args, os.path.join(d, "trace_resumed.ndjson"))
+                run.evaluations += 1
+                if not (os.WIFEXITED(st) and os.WEXITSTATUS(st) == 0):
+                    run.violation({"kind": "torch_tool_failed", "status": st, "pre": pre_cfg, "post": post_cfg, "what": "resumed run"})
+                else:
+                    for s_ in chosen[2:]:
+                        t = c10.load_tensor(os.path.join(out, s_[0] + ".pt"))
+                        if t is None or s_[0] not in a or not torch.equal(t, a[s_[0]]):
+                            run.violation({"kind": "fixed_seed_two_runs_differ", "tool": "torch", "utt": s_[0], "pre": pre_cfg, "post": post_cfg,
+                                           "what": "a run resumed from a manifest listing %s against a complete run" % [q[0] for q in chosen[:2]]})
+                            break
             key = (pi, qi, channel, with_comp)
             if key in firsts:
                 other = firsts[key]
